@@ -293,6 +293,16 @@ fn op_from_str(s: &str) -> Op {
 pub fn replay(case: &Value) -> Vec<Violation> {
     let pool = pool();
     let mode = super::curves::mode_from(case["mode"].as_i64().unwrap_or(0));
+    if case["kind"] == "copy" {
+        let ix = |v: &Value, k: usize| v[k].as_u64().unwrap_or(0) as usize;
+        let src = fresh(mode, &pool[ix(&case["src"], 0)], LENS[ix(&case["src"], 1)]);
+        let mut dst = fresh(mode, &pool[ix(&case["dst"], 0)], LENS[ix(&case["dst"], 1)]);
+        dst.clone_from(&src);
+        if !same(&dst, &src) || !same(&src.clone(), &src) {
+            return vec![Violation::new("copy-differs", "a curve overwritten through clone_from differs from its source", case.clone())];
+        }
+        return Vec::new();
+    }
     let mut s = S {
         bufs: CurveBuffers::default(),
         path: SliderPath::new(mode, pool[2].clone(), None),
@@ -336,13 +346,40 @@ pub fn run(tier: Tier) -> i32 {
         a.distinct_measured = Some(a.states);
         acc = acc.merge(a);
     }
+    // copies: a curve overwritten through Clone::clone_from (or cloned) is the source curve, for every ordered pair
+    {
+        let pool = pool();
+        let items: Vec<(usize, usize)> = (0..pool.len()).flat_map(|i| (0..LENS.len()).map(move |l| (i, l))).collect();
+        let n = items.len() as u64;
+        let a = crate::engine::par_range(n * n * modes.len() as u64, |idx, acc| {
+            let mode = modes[(idx % modes.len() as u64) as usize];
+            let k = idx / modes.len() as u64;
+            let ((i, l), (j, m)) = (items[(k / n) as usize], items[(k % n) as usize]);
+            acc.evals += 1;
+            acc.transitions += 2;
+            let src = fresh(mode, &pool[j], LENS[m]);
+            let mut dst = fresh(mode, &pool[i], LENS[l]);
+            dst.clone_from(&src);
+            let copy = src.clone();
+            if !same(&dst, &src) || !same(&copy, &src) {
+                acc.violation(Violation::new(
+                    "copy-differs",
+                    format!("curve of pool entry {j} (len {:?}) cloned over the curve of entry {i} (len {:?}) in {mode:?}: path[{}] lengths[{}] vs source path[{}] lengths[{}]",
+                        LENS[m], LENS[l], dst.path().len(), dst.lengths().len(), src.path().len(), src.lengths().len()),
+                    json!({"kind": "copy", "mode": mode as i32, "dst": [i, l], "src": [j, m]}),
+                ));
+            }
+        });
+        acc = acc.merge(a);
+    }
     acc.sample(|| json!({"history": ["Borrowed(2, 0)", "Borrowed(0, 0)", "PathCurveBufs", "Push", "PathCurve"]}));
     let summary = Summary {
         rule: format!(
             "stateright BFS over (shared CurveBuffers, one SliderPath with its cache); {} operations: owned/borrowed \
              computation of every pool entry x requested length, the three SliderPath curve getters, push/pop/overwrite \
              through control_points_mut, expected_dist_mut, clear_curve, Clone::clone_from another path; every curve returned is compared bit-wise with \
-             Curve::new on fresh buffers for the CURRENT points/length. distinct_nontrivial = distinct canonical \
+             Curve::new on fresh buffers for the CURRENT points/length; every ordered pair of (pool entry, length) curves \
+             copied over one another with clone_from / clone equals its source. distinct_nontrivial = distinct canonical \
              (buffers, path, cache) states",
             ops.len()
         ),
